@@ -1674,6 +1674,26 @@ impl Arena {
   }
 }
 
+#[cfg(rarena_verif)]
+impl Arena {
+  /// Raw view of the header and the free list (plain, unreported reads).
+  #[doc(hidden)]
+  pub fn verif_snapshot(&self, max: usize) -> crate::verif::Snapshot {
+    let header = self.header();
+    let sentinel = header.sentinel.verif_inner().load(Ordering::Relaxed);
+    let (nodes, truncated) =
+      unsafe { crate::verif::walk(self.ptr, self.cap as usize, sentinel, max) };
+    crate::verif::Snapshot {
+      sentinel,
+      allocated: header.allocated.verif_inner().load(Ordering::Relaxed),
+      min_segment_size: header.min_segment_size.verif_inner().load(Ordering::Relaxed),
+      discarded: header.discarded.verif_inner().load(Ordering::Relaxed),
+      nodes,
+      truncated,
+    }
+  }
+}
+
 impl Drop for Arena {
   fn drop(&mut self) {
     unsafe {
